@@ -181,7 +181,15 @@ func run(in input) vh.Result {
 	case "plan":
 		return runPlanCase(in)
 	case "rt":
-		return runRt(in)
+		// a lost or stuck plan makes Stop / Enqueue wait for ever: report that quickly
+		done := make(chan vh.Result, 1)
+		go func() { done <- runRt(in) }()
+		select {
+		case r := <-done:
+			return r
+		case <-time.After(20 * time.Second):
+			panic("verif: the runtime did not finish this run within 20s (a producer, a worker or Stop is stuck)")
+		}
 	}
 	panic("unknown case kind " + in.Kind)
 }
